@@ -1,5 +1,6 @@
 ------------------------------ MODULE MC_Paths ------------------------------
 EXTENDS PathsResolve
+CONSTANT More    \* BOOLEAN: further path shapes (thorough)
 P(t, c, up, segs) == [text |-> t, class |-> c, up |-> up, segs |-> segs]
 Shapes == { P("./x", "rel", 0, <<"x">>), P("x/y", "rel", 0, <<"x", "y">>), P("../x", "rel", 1, <<"x">>), P(".", "rel", 0, <<>>),
             P("./a/../b", "rel", 0, <<"b">>), P("./vendor/github.com/acme/tool", "rel", 0, <<"vendor", "github.com", "acme", "tool">>),
@@ -8,6 +9,10 @@ Shapes == { P("./x", "rel", 0, <<"x">>), P("x/y", "rel", 0, <<"x", "y">>), P("..
             P("C:\\x", "winabs", 0, <<>>), P("c:/data", "winabs", 0, <<>>), P("\\\\srv\\share\\d", "unc", 0, <<>>),
             P("https://example.com/r.git", "remote", 0, <<>>), P("git@github.com:o/r.git", "remote", 0, <<>>), P("github.com/o/r", "remote", 0, <<>>),
             P("docker-image://img:1", "url", 0, <<>>), P("oci-layout://./x", "url", 0, <<>>) }
+          \cup (IF More THEN { P("./x/", "rel", 0, <<"x">>), P("x//y", "rel", 0, <<"x", "y">>), P("./sp ace/f", "rel", 0, <<"sp ace", "f">>), P("...", "rel", 0, <<"...">>),
+                               P("x/../../y", "rel", 1, <<"y">>), P("./.hidden", "rel", 0, <<".hidden">>), P("a:b", "rel", 0, <<"a:b">>), P("/", "abs", 0, <<>>), P("/abs/../up", "abs", 0, <<>>),
+                               P("~/", "home", 0, <<>>), P("~/a/../b", "home", 0, <<"b">>), P("ssh://git@host/r.git", "url", 0, <<>>), P("http://example.com/x.tar.gz", "remote", 0, <<>>) }
+                ELSE {})
 \* where the attribute is written: the main file, an included file (project directory inc/), an extended file in sub/
 \* include2: a file included by the included file, from inc/deep/; include-sibling: in the included file, on a service that a sibling of
 \* the same file extends (both must resolve alike); extends-fork: the extended service is itself extended by a second service of the main file
